@@ -113,7 +113,7 @@ Proof. exact detached_wf. Qed.
 Print Assumptions C01_detached_wf.
 
 Theorem C01_resolve_obj_ok :
-  forall (F : Type) (lvalidate lto_python : F -> pyval -> res pyval) (ldefault : F -> N -> pyval) (lcallable lflag : F -> bool) (vrun : N -> list (str * pyval) -> bool) (lmeets : F -> pyval -> Prop), (forall (f : F) (x v : pyval), lvalidate f x = Ok v -> lmeets f v) -> (forall (f : F) (n : N), lmeets f (ldefault f n)) -> forall (fs : list (str * node F)) (ps : list pstep) (x : xop F) (w : world), ok_fields F fs -> xobj_ok F lmeets fs ps x -> obj_ok F lmeets fs ps (snd (resolve F lvalidate lto_python ldefault lcallable lflag vrun w x)).
+  forall (F : Type) (lvalidate lto_python : F -> pyval -> res pyval) (ldefault : F -> N -> pyval) (lcallable lflag : F -> bool) (vrun : N -> list (str * pyval) -> bool) (lmeets : F -> pyval -> Prop), (forall (f : F) (x v : pyval), lvalidate f x = Ok v -> lmeets f v) -> (forall (f : F) (n : N), lmeets f (ldefault f n)) -> forall (fs : list (str * node F)) (ps : list pstep) (x : xop F) (w : world) (o : cop), ok_fields F fs -> xobj_ok F lmeets fs ps x -> snd (resolve F lvalidate lto_python ldefault lcallable lflag vrun w x) = Some o -> obj_ok F lmeets fs ps o.
 Proof. exact resolve_obj_ok. Qed.
 Print Assumptions C01_resolve_obj_ok.
 
@@ -136,3 +136,20 @@ Theorem C01_inst_reachable_x_wf :
   forall (vt : vtable) (ops : list (list pstep * xop leaf)) (w : world) (dyn : bool) (vs : list N) (fs : list (str * inode)), (forall (f : leaf) (n : N), inst_meets f (ldefault f n)) -> ok_fields leaf fs -> xobjs_ok leaf inst_meets fs ops -> wf_cfg leaf inst_meets fs (run_x leaf lvalidate lto_python ldefault l_callable lflag (vrun vt) ops (fst (build_cfg leaf ldefault l_callable w fs)) (snd (build_cfg leaf ldefault l_callable w fs)) dyn vs fs).
 Proof. exact inst_reachable_x_wf. Qed.
 Print Assumptions C01_inst_reachable_x_wf.
+
+Theorem C01_inst_reachable_xs_wf :
+  forall (vt : vtable) (ops : list (list pstep * xop leaf)) (w : world) (dyn : bool) (vs : list N) (fs : list (str * inode)), (forall (f : leaf) (n : N), inst_meets f (ldefault f n)) -> ok_fields leaf fs -> xs_ok leaf inst_meets fs ops None -> wf_cfg leaf inst_meets fs (run_xs leaf lvalidate lto_python ldefault l_callable lflag (vrun vt) ops (fst (build_cfg leaf ldefault l_callable w fs)) None (snd (build_cfg leaf ldefault l_callable w fs)) dyn vs fs).
+Proof. exact inst_reachable_xs_wf. Qed.
+Print Assumptions C01_inst_reachable_xs_wf.
+
+(* histories in which the caller keeps an object that was refused, works on it through its own reference and offers it again (XAgain, Config.at_path_xs): the static condition xs_ok follows the schema of the object the caller may still hold *)
+
+Theorem C01_run_xs_wf :
+  forall (F : Type) (lvalidate lto_python : F -> pyval -> res pyval) (ldefault : F -> N -> pyval) (lcallable lflag : F -> bool) (vrun : N -> list (str * pyval) -> bool) (lmeets : F -> pyval -> Prop), (forall (f : F) (x v : pyval), lvalidate f x = Ok v -> lmeets f v) -> (forall (f : F) (n : N), lmeets f (ldefault f n)) -> forall (ops : list (list pstep * xop F)) (w : world) (last : kept F) (c : icfg) (dyn : bool) (vs : list N) (fs : list (str * node F)) (held : option (list (str * node F))), ok_fields F fs -> wf_cfg F lmeets fs c -> kept_ok F lmeets held last -> xs_ok F lmeets fs ops held -> wf_cfg F lmeets fs (run_xs F lvalidate lto_python ldefault lcallable lflag vrun ops w last c dyn vs fs).
+Proof. exact run_xs_wf. Qed.
+Print Assumptions C01_run_xs_wf.
+
+Theorem C01_reachable_xs_wf :
+  forall (F : Type) (lvalidate lto_python : F -> pyval -> res pyval) (ldefault : F -> N -> pyval) (lcallable lflag : F -> bool) (vrun : N -> list (str * pyval) -> bool) (lmeets : F -> pyval -> Prop), (forall (f : F) (x v : pyval), lvalidate f x = Ok v -> lmeets f v) -> (forall (f : F) (n : N), lmeets f (ldefault f n)) -> forall (ops : list (list pstep * xop F)) (w : world) (dyn : bool) (vs : list N) (fs : list (str * node F)), ok_fields F fs -> xs_ok F lmeets fs ops None -> wf_cfg F lmeets fs (run_xs F lvalidate lto_python ldefault lcallable lflag vrun ops (fst (build_cfg F ldefault lcallable w fs)) None (snd (build_cfg F ldefault lcallable w fs)) dyn vs fs).
+Proof. exact reachable_xs_wf. Qed.
+Print Assumptions C01_reachable_xs_wf.
